@@ -186,3 +186,29 @@ pub fn guarded<R>(f: impl FnOnce() -> R) -> Result<R, String> {
         }
     }
 }
+
+/// run `f` inside a rayon pool of another size than the global one (`which` selects 1, 2, 3 or 5
+/// worker threads); without the parallel feature `f` simply runs. Used for REPEATED queries: what a
+/// problem reports at fixed parameters must not depend on the pool a query happens to run in.
+#[cfg(feature = "parallel")]
+pub fn in_alt_pool<R>(which: usize, f: impl FnOnce() -> R) -> R {
+    use std::sync::OnceLock;
+    static POOLS: OnceLock<Vec<rayon::ThreadPool>> = OnceLock::new();
+    let pools = POOLS.get_or_init(|| {
+        [1usize, 2, 3, 5].iter().map(|k| rayon::ThreadPoolBuilder::new().num_threads(*k).build().expect("pool")).collect()
+    });
+    struct AssertSend<T>(T);
+    unsafe impl<T> Send for AssertSend<T> {}
+    impl<R, F: FnOnce() -> R> AssertSend<F> {
+        fn call(self) -> AssertSend<R> {
+            AssertSend((self.0)())
+        }
+    }
+    let w = AssertSend(f);
+    // the calling thread blocks until the closure has run: nothing is shared concurrently
+    pools[which % pools.len()].install(move || w.call()).0
+}
+#[cfg(not(feature = "parallel"))]
+pub fn in_alt_pool<R>(_which: usize, f: impl FnOnce() -> R) -> R {
+    f()
+}
